@@ -14,8 +14,18 @@
 #include <fcntl.h>
 #include <fstream>
 #include <regex>
+#include <sys/mman.h>
 
 namespace vh {
+
+// A page shared between the parent and its case-runner children: the child notes what it is about to do (e.g. the accessor
+// it is about to call) so that a death can be attributed more finely than to the case.  Plain bytes, written by the child only.
+inline char* fork_note()
+{
+   static char* page = static_cast<char*>(mmap(nullptr, 4096, PROT_READ | PROT_WRITE, MAP_SHARED | MAP_ANONYMOUS, -1, 0));
+   return page == MAP_FAILED ? nullptr : page;
+}
+inline void set_fork_note(const char* s) { if (char* p = fork_note()) { std::strncpy(p, s, 200); p[200] = 0; } }
 
 // child-side reporter: everything goes over the pipe as tab-separated lines
 struct CaseOut {
@@ -73,6 +83,7 @@ inline ForkStats run_cases_forked(Ctx& C, const std::vector<ForkCase>& cases, in
       int pfd[2];
       if (pipe(pfd) != 0) { C.inconclusive("pipe() failed"); return S; }
       std::fflush(nullptr);
+      set_fork_note("");
       pid_t pid = fork();
       if (pid < 0) { C.inconclusive("fork() failed"); return S; }
       if (pid == 0) {
@@ -122,7 +133,7 @@ inline ForkStats run_cases_forked(Ctx& C, const std::vector<ForkCase>& cases, in
          const ForkCase& k = cases[std::size_t(in_flight)];
          if (stalled) {
             ++S.stalls;
-            C.viol("no-termination:" + k.label, "the case made no progress for " + std::to_string(stall_seconds) + " s and was killed (all inputs are finite graphs)", J().s("case", k.label).n("case_index", in_flight).str());
+            C.viol("no-termination:" + k.label + (fork_note() && *fork_note() ? std::string(":") + fork_note() : std::string()), "the case made no progress for " + std::to_string(stall_seconds) + " s and was killed (all inputs are finite graphs)", J().s("case", k.label).n("case_index", in_flight).str());
          } else {
             ++S.deaths;
             std::string sum = sanitizer_summary_of(pid);
@@ -132,7 +143,8 @@ inline ForkStats run_cases_forked(Ctx& C, const std::vector<ForkCase>& cases, in
             else if (sum.find("runtime error:") != std::string::npos) kind = "undefined-behaviour";
             else if (WIFSIGNALED(status)) kind = "signal-" + std::to_string(WTERMSIG(status));
             else if (WIFEXITED(status)) kind = "exit-" + std::to_string(WEXITSTATUS(status));
-            C.viol("crash:" + kind + ":" + k.label, "the process died while running this case (" + (sum.empty() ? kind : sum) + ")", J().s("case", k.label).n("case_index", in_flight).s("sanitizer", sum).str());
+            std::string note = fork_note() ? std::string(fork_note()) : std::string();
+            C.viol("crash:" + kind + ":" + k.label + (note.empty() ? "" : ":" + note), "the process died while running this case" + (note.empty() ? std::string() : " at " + note) + " (" + (sum.empty() ? kind : sum) + ")", J().s("case", k.label).n("case_index", in_flight).s("sanitizer", sum).s("note", note).str());
          }
          next = std::size_t(in_flight) + 1;
       } else if (!(WIFEXITED(status) && WEXITSTATUS(status) == 0)) {
